@@ -306,7 +306,7 @@ class Outcome:
         self.nontrivial_keys = set()
 
     # ---- classes from a validator
-    def absorb(self, validator, checked, classes, is_bad=lambda c: c[0] == "BAD", nontrivial=lambda c: True, label=None):
+    def absorb(self, validator, checked, classes, is_bad=lambda c: c[0] == "BAD", nontrivial=lambda c: True, label=None, grouped=False):
         run = dict(validator=validator, label=label or validator, records=checked, classes=[])
         self.cov["evaluations"] += checked
         self.cov["traces_validated_against_impl"] += checked
@@ -317,7 +317,17 @@ class Outcome:
                 if "nt" in key:
                     self.cov["distinct_nontrivial"] += c["n"]
                 continue
-            rec = read_line(*c["ex"]) if c.get("ex") else None
+            rec = None
+            if c.get("ex"):
+                chunk, ex = c["ex"]
+                if grouped:
+                    rec = read_line(chunk, ex // 1000)
+                    if rec:
+                        g = json.loads(rec)
+                        i = ex % 1000
+                        rec = json.dumps(dict(k=g.get("k"), be=g.get("be"), pre=g.get("pre"), steps=[g["steps"][i - 1]] if 0 < i <= len(g["steps"]) else []))
+                else:
+                    rec = read_line(chunk, ex)
             hit = None
             for f in self.findings:
                 for m in f.get("match", []):
